@@ -148,6 +148,8 @@ func isoShapes(scratch string, rng *rand.Rand, n int) []*isoShape {
 			Entry{Type: "ghost", Dst: "/var/log/isopkg.log", Fi: withFi, HasFi: true},
 			Entry{Type: "doc", Src: "src/sub/data.txt", Dst: "/usr/share/doc/isopkg/data.txt", Fi: withFi, HasFi: true},
 			Entry{Type: "config", Src: "src/app.conf", Dst: "/etc/isopkg/app.conf", Fi: withFi, HasFi: true},
+			Entry{Type: "config|noreplace", Src: "src/extra.conf", Dst: "/etc/isopkg/keep.conf", Fi: withFi, HasFi: true},
+			Entry{Type: "config|missingok", Src: "src/extra.conf", Dst: "/etc/isopkg/optional.conf"},
 			Entry{Type: "file", Src: "src/sub", Dst: "/usr/share/isopkg", Fi: withFi, HasFi: true},
 			Entry{Type: "tree", Src: "src/sub", Dst: "/usr/share/isopkg-tree", Fi: withFi, HasFi: true})
 	}, "")
